@@ -150,6 +150,13 @@ Inductive resource :=
 | RVS (v : vserver)                                       (* VirtualServerConfiguration *)
 | RTS (t : tserver).                                      (* TransportServerConfiguration *)
 
+(* validateMinionSpec rejects a minion that has spec.tls: an attached minion has none *)
+Definition resource_wfb (r : resource) : bool :=
+  match r with
+  | RMergeable _ ms => forallb (fun m => match i_tls m with [] => true | _ => false end) ms
+  | _ => true
+  end.
+
 (* ------------------------------------------------------------------ cluster (what the look-ups return) *)
 
 Record waf := {                                            (* conf_v1.WAF *)
@@ -526,16 +533,17 @@ Definition reaches (e : env) (cl : cluster) (k : kind) (ns name : string) (r : r
 
 Inductive op := Add | Update | Delete.
 
-(* The informer handlers enqueue every add and delete, and every update whose objects differ
-   (for a Service only when hasServiceChanges: a port name/number or an ExternalName changed --
-   [relevant] is that verdict; it is [true] for the other kinds).  The sync functions compute the
-   affected resources before looking at existence, except syncEndpointSlices, which returns
-   early when the EndpointSlice is gone. *)
+(* The informer handlers enqueue every add and delete, and an update only when their filter lets it
+   through: a Service when hasServiceChanges (a port name/number or an ExternalName changed), a Policy /
+   DosProtectedResource / App Protect resource when the spec differs, a Secret / EndpointSlice when the
+   objects differ.  [relevant] is that verdict, an explicit argument.  The sync functions compute the
+   affected resources before looking at existence, except syncEndpointSlices, which returns early
+   when the EndpointSlice is gone. *)
 Definition event_reaches (e : env) (cl : cluster) (k : kind) (o : op) (relevant : bool)
            (ns name : string) (r : resource) : bool :=
   match k, o with
   | KEndpoints, Delete => false
-  | KService, Update => relevant && reaches e cl k ns name r
+  | _, Update => relevant && reaches e cl k ns name r
   | _, _ => reaches e cl k ns name r
   end.
 
